@@ -258,6 +258,29 @@ func (*c04) Oracle(ci, oi any) []hx.Violation {
 				}
 			}
 		}
+	case "upgrade":
+		// overlay: a non-null new leaf wins, a path the new values say nothing about carries forward
+		newv, old := c.Upgrade.Vals2, c.Upgrade.Vals1
+		if newv == nil {
+			newv = vtree{}
+		}
+		if old == nil {
+			old = vtree{}
+		}
+		for _, p := range orAllPaths(newv, old, out) {
+			if x, ok := orLeaf(p, newv); ok && x != nil {
+				if got, ok := orLeaf(p, out); !ok || !vtEqual(got, x) {
+					add("tables-dst-wins", fmt.Sprintf("upgrade overlay: path %s: new value %v, recorded %v (%v)", pstr(p), x, got, ok))
+				}
+			}
+			if !orDefines(p, newv) {
+				want, wok := vtLookup(p, old)
+				got, gok := vtLookup(p, out)
+				if wok != gok || (wok && !vtEqual(want, got)) {
+					add("tables-src-fills", fmt.Sprintf("upgrade overlay: path %s not set now: deployed %v (%v), recorded %v (%v)", pstr(p), want, wok, got, gok))
+				}
+			}
+		}
 	case "tables":
 		dst, src := c.A, c.B
 		if dst == nil {
